@@ -14,7 +14,29 @@ Count(s, x) == Cardinality({ i \in 1 .. Len(s) : s[i] = x })
 Range(s) == { s[i] : i \in 1 .. Len(s) }
 Min(a, b) == IF a < b THEN a ELSE b
 
-Verdict(r) ==
+(* archives: rows are names (characters); ordered by name asc / desc; judged as texts *)
+TLeq(a, b, desc) == IF desc THEN LexLeq(b, a) ELSE LexLeq(a, b)
+VerdictArch(r) ==
+  LET all == [i \in 1 .. Len(r.obs.all.rows) |-> r.obs.all.rows[i][1]]
+      lim == [i \in 1 .. Len(r.obs.lim.rows) |-> r.obs.lim.rows[i][1]]
+      M == Len(all)
+      want == IF r.limit = 0 THEN M ELSE Min(r.limit, M)
+      sub == \A x \in Range(lim) : Count(lim, x) <= Count(all, x)
+      desc == r.keys # <<>> /\ r.keys[1].desc
+      sorted == \A i \in 1 .. Len(lim) - 1 : TLeq(lim[i], lim[i + 1], desc)
+      excluded == { v \in Range(all) : Count(all, v) > Count(lim, v) }
+      topn == \A x \in Range(lim), v \in excluded : TLeq(x, v, desc)
+      y == IF r.obs.lim.timed_out \/ r.obs.all.timed_out THEN "timeout"
+           ELSE IF r.obs.lim.panic THEN "crash"
+           ELSE IF Len(lim) # want THEN (IF Len(lim) < want THEN "too-few-rows" ELSE "too-many-rows")
+           ELSE IF ~sub THEN "row-not-in-unlimited-result"
+           ELSE IF r.keys # <<>> /\ ~sorted THEN "not-sorted"
+           ELSE IF r.keys # <<>> /\ ~topn THEN "not-the-top-n"
+           ELSE "ok"
+  IN [id |-> r.id, ok |-> (y = "ok"), class |-> r.class, why |-> y, key |-> "C06/" \o r.class \o "/" \o y,
+      nontrivial |-> (r.limit >= 1 /\ r.limit < M /\ M > 23)]       \* (more rows than W5z has entries: members were listed)
+
+VerdictPlain(r) ==
   LET w     == r.world
       nodes == NodeIds(w)
       paths == [n \in nodes |-> r.prefix \o RelPath(w, n)]
@@ -39,6 +61,8 @@ Verdict(r) ==
   IN [id |-> r.id, ok |-> (y = "ok"), class |-> r.class, why |-> y,
       key |-> "C06/" \o r.class \o "/" \o y,
       nontrivial |-> (r.limit >= 1 /\ r.limit < M)]
+
+Verdict(r) == IF r.arch THEN VerdictArch(r) ELSE VerdictPlain(r)
 
 Init == l = 1
 Next == /\ l <= Len(Rec)
